@@ -22,11 +22,11 @@ import (
 // tables built from every subset of up to 4 keys of a sub-universe.
 
 type c15Task struct {
-	Cmp   string `json:"cmp"`
-	Kind  string `json:"kind"` // pairs | triples | sep | route
-	MaxLen int   `json:"maxlen"`
-	From  int    `json:"from"`
-	To    int    `json:"to"`
+	Cmp    string `json:"cmp"`
+	Kind   string `json:"kind"` // pairs | triples | sep | route
+	MaxLen int    `json:"maxlen"`
+	From   int    `json:"from"`
+	To     int    `json:"to"`
 }
 
 type c15Result struct {
